@@ -449,7 +449,7 @@ fn gen_pieces(rng: &mut Rng, len: usize, cfg: &GenCfg, first: bool, st: &mut Gen
                         Path::ExtendRefLazy,
                     ])
                 } else {
-                    rng.pick(&[Path::AddLoop, Path::ExtendVal, Path::ExtendRef, Path::ExtendValLazy, Path::ExtendRefLazy])
+                    rng.pick(&[Path::AddLoop, Path::ExtendVal, Path::ExtendRef, Path::ExtendValLazy, Path::ExtendRefLazy, Path::ExtendDuringUnwind])
                 }
             }
             PathMix::WithFromValue => {
@@ -845,8 +845,12 @@ pub fn run_tree<E: Est, H: Hooks<E>>(
             hooks.restore_skipped(id);
             return Ok(acc);
         }
-        let back = E::from_json(&json).map_err(|e| {
-            Viol::new(format!("{}:restore_parse", E::NAME), format!("serialised state does not deserialise: {} json={}", e, json))
+        let blob = acc.to_blob(crate::medium::pick(&json));
+        let back = E::from_json(&blob).map_err(|e| {
+            Viol::new(
+                format!("{}:restore_parse", E::NAME),
+                format!("serialised state does not deserialise from medium {}: {} json={}", crate::medium::name_of_blob(&blob), e, json),
+            )
         })?;
         hooks.restored(id, &acc, &json, &back)?;
         Ok(back)
